@@ -29,6 +29,18 @@ CLAIMS = {
  'C07': ("Partial-mode walk (atEoi with is_prefix) is part of the model; reference partial lexer specLexP (needs more input iff some byte keeps a pattern viable); compiled partial lexers over every prefix S[..k] vs the one-shot lexing of S (leading run, empty span, restart position) and vs specLexP for look-free definitions.",
          "the equality walk(prefix)=specLexP is checked per input (correspondence), its theorem is not yet proved; look-around definitions: prefix relation only.",
          "model + reference partial lexer + all-split-points correspondence"),
+ 'C08': ("tie_witness / tieFreeB_sound: the Lean tie search over derivative vectors answers either with a witness string on which two patterns share the top priority, or with a closure proving that no string is matched by two top-priority patterns; both answers are checked by proved validators; the real derive's Disambiguation diagnostics (and the leaves they name) must agree in both directions for every corpus definition.",
+         "look-around definitions and definitions rejected earlier (nullable pattern) are outside the comparison; definitions are sampled.",
+         "Lean theorems (sound + complete tie decision per definition) + correspondence with the derive's diagnostics"),
+ 'C09': ("Hir.complexity is the documented rule as a Lean function on the captured HIR; complexity_le_twice_len: every string matched by a pattern is at least half its default priority long, hence literal_never_beaten; recorded priorities of every leaf (regex, skip, token, explicit) compared with the rule.",
+         "the winner/ambiguity outcome for literal-vs-regex pairs is C01/C08.",
+         "Lean theorem on the priority rule + per-leaf correspondence"),
+ 'C10': ("lit_language (a literal's language is its byte string) and equivB_sound (proved language-equivalence checker): every token/regex/skip with and without ignore(case) is paired with an independently written (?i:...) reference form and proved equivalent for all strings on the captured HIRs; sampled strings additionally against the regex crate.",
+         "the Unicode case-folding tables themselves are regex-syntax's (trusted as the oracle the property names).",
+         "proved equivalence checker per definition + regex-crate differential"),
+ 'C11': ("equivB_sound: every pattern with (?&name) references is proved equivalent (all strings) to the pattern obtained by independent inlining as a non-capturing group with the subpattern's own Unicode mode; undefined names must be rejected.",
+         "partial by nature: group scoping is regex-syntax's; definitions are sampled.",
+         "proved equivalence checker per definition"),
  'C13': ("construct / constructSkip model every CallbackRetVal / SkipRetVal impl row by row; lex_eq_spec holds for every callback table, so skips, custom errors and emitted variants are those of the reference lexer; zoo definitions carry callbacks of every supported return type, an error callback and bumping callbacks.",
          "callback bodies are executed, not modelled (same pure decision on both sides).",
          "Lean theorem (for all callback tables) + correspondence with every return type"),
